@@ -17,7 +17,7 @@ import (
 func init() {
 	vc.Register(&vc.Check{ID: "C08", Level: "exploration", Run: run, Replay: replay, QuickSec: 170, ThoroSec: 1800,
 		Rule: "real Reader.ReadDocument against the independent, genuinely issued chip over a 13-dimensional configuration lattice (access control, password, PACE curve, suite, optional DG subset, CA arrangement, AA key type, large-file size, maxLe, chip Le cap, extended length, issuer trusted, SkipImages). Enumerated completely: every TWO-FACTOR slice (all value pairs of every two dimensions, the rest at the baseline), plus the complete {DG subset x CA x AA x SkipImages} and {file size x maxLe x cap x extended} slices (thorough adds {access x curve x suite x password}). Oracle from the chip's own truth: every returned file byte-identical to the chip's; inside the region the transport supports the read succeeds, every supported DG listed in the SOD is present (DG2/DG7 excepted with SkipImages), BAC/PACE reported as the chip completed them, the strongest chip-authentication mechanism by the library's precedence AA > PACE-CAM > CA is reported successful, PA success <=> issuer in the trust store. distinct_nontrivial = distinct configuration vectors read",
-		Assume: []string{"required region: maxLe >= 128, extended length supported or maxLe <= 256, chip Le cap 0 or >= 128 (a rung of the 256/192/128 ladder), file size <= 32767 and <= 1000 chunks; outside it only 'exact or error' is demanded", "CA after a successful AA / PACE-CAM is skipped by design and not demanded"}})
+		Assume: []string{"required region: maxLe >= 128, extended length supported or maxLe <= 256, chip Le cap 0 or >= 128 (a rung of the 256/192/128 ladder), every chunk of every file starts at an offset <= 32767 (the 15-bit READ BINARY offset) and a file needs <= 990 chunks; outside it only 'exact or error' is demanded", "CA after a successful AA / PACE-CAM is skipped by design and not demanded"}})
 }
 
 type dim struct {
@@ -175,9 +175,27 @@ func required(v vec, p *perso.Perso) bool {
 	if c := caps[v[9]]; c != 0 && c < ml && ml <= 128 {
 		return false
 	}
-	for _, f := range p.Files {
-		if len(f) > 32767 || (len(f)+ml-1)/ml > 990 {
+	// effective read size after the library's fallback ladder
+	eff := ml
+	if c := caps[v[9]]; c != 0 && c < ml {
+		eff = 0
+		for _, rung := range []int{256, 192, 128} {
+			if rung < ml && rung <= c && eff == 0 {
+				eff = rung
+			}
+		}
+		if eff == 0 {
 			return false
+		}
+	}
+	for _, f := range p.Files {
+		// READ BINARY carries a 15-bit START offset: a file is readable when every chunk starts at or below 32767
+		// (the bytes returned may run past it) and needs at most the library's 1000 chunks
+		if len(f) > 4 {
+			lastStart := 4 + ((len(f)-5)/eff)*eff
+			if lastStart > 32767 || (len(f)+eff-1)/eff > 990 {
+				return false
+			}
 		}
 	}
 	return true
